@@ -20,6 +20,7 @@ func init() {
 			c.run("C20-R3", "WHO-WRITES: the displayed step never decreases within a file", c20R3)
 			c.run("C20-R4", "GUARD-DOM: layout ladder", c20R4)
 			c.run("C20-R5", "GUARD-DOM: name shortening measures by display width", c20R5)
+			c.run("C20-R8", "GUARD-DOM/WHO-WRITES: variable indexes into fixed-size arrays in the progress code are bounded loop counters, ring indexes with their wrap test, or guarded", c20R8)
 			c.run("C20-R7", "GUARD-DOM (interprocedural): counts handed to Grow / Repeat while rendering cannot be negative", c20R7)
 			c.run("C20-R6", "MUST-PASS/WHO-WRITES: the width the line is laid out for is the latest width reported to the filter", c20R6)
 		})
@@ -216,6 +217,73 @@ func c20R3(c *Ctx) {
 			c.check(good, "fileSize/includes-kept-prefix", c.ipos(st), "the displayed size is the announced size plus the kept prefix", "the displayed size ignores the kept prefix")
 		}
 	})
+	// on the receiving end the source size is known from the NAME message only from protocol 4 on (a protocol-3 peer
+	// sends it in a SIZE message during the resume step): wherever the receiver's name / resume steps hand a size to the
+	// progress, a value read from the decoded entry is used only where the protocol was found >= 4; and no step of the
+	// resume comparison is reported before a size was (else the bar shows 100 % against a size of zero and then drops)
+	{
+		v4 := c.constVal("kProtocolVersion4")
+		isOnSize := func(in ssa.Instruction) bool {
+			ci, ok := in.(ssa.CallInstruction)
+			return ok && ci.Common().IsInvoke() && ci.Common().Method.Name() == "onSize"
+		}
+		isOnStep := func(in ssa.Instruction) bool {
+			ci, ok := in.(ssa.CallInstruction)
+			return ok && ci.Common().IsInvoke() && ci.Common().Method.Name() == "onStep"
+		}
+		nSz := 0
+		for _, fn := range []string{"trzszTransfer.recvFileNameV3", "trzszTransfer.recvPrefixHash"} {
+			g := c.fn(fn)
+			eachInstr(g, func(in ssa.Instruction) {
+				if !isOnSize(in) {
+					return
+				}
+				nSz++
+				ci := in.(ssa.CallInstruction)
+				for _, l := range origins(ci.Common().Args[0], originOpts{}) {
+					if !isFieldLoad("Size")(l.V) {
+						continue
+					}
+					fs := append(append([]fact{}, factsAt(in.Block())...), l.facts()...)
+					okV := factCmp(fs, token.GEQ, isFieldLoad("Protocol"), isConstIntV(v4)) || factCmp(fs, token.GTR, isFieldLoad("Protocol"), isConstIntV(v4-1))
+					c.check(okV, fn+"/onSize-from-entry-only-from-v4", c.ipos(in), "the decoded entry's size is shown only where the protocol was found >= 4", "the receiver shows the decoded entry's size for a peer below protocol 4, whose NAME message carries none: the bar runs against a size of zero (100 %) and drops when the SIZE message arrives")
+				}
+			})
+		}
+		if nSz == 0 {
+			c.bad("recvPrefixHash/size-before-steps", "", "the receiver's resume step never tells the progress the size")
+		}
+		rp := c.fn("trzszTransfer.recvPrefixHash")
+		// (paths on which the progress callback was found nil report nothing at all)
+		noProgress := func(from, to *ssa.BasicBlock) bool {
+			for _, fc := range edgeFactsTo(from, to) {
+				op, x, y, ok := cmpFact(fc)
+				if ok && op == token.EQL && isNilConst(y) && isVar("progress")(x) {
+					return true
+				}
+			}
+			return false
+		}
+		hitS, pathS := reachFromE(rp.Blocks[0], 0, isOnStep, isOnSize, noProgress)
+		if hitS != nil {
+			// acceptable when every caller has told the size before calling
+			okCallers := true
+			for _, cs := range c.callersOf(rp) {
+				dom := false
+				eachInstr(cs.Caller, func(x ssa.Instruction) {
+					if isOnSize(x) && domI(x, cs.Instr.(ssa.Instruction)) {
+						dom = true
+					}
+				})
+				if !dom {
+					okCallers = false
+				}
+			}
+			c.check(okCallers, "recvPrefixHash/size-before-steps", c.pos(rp.Pos()), "a size is told to the progress before the first step of the resume comparison", "steps of the resume comparison can be reported before any size was: the percentage is computed against zero", c.pathStr(pathS)...)
+		} else {
+			c.ok("recvPrefixHash/size-before-steps", c.pos(rp.Pos()), "a size is told to the progress before the first step of the resume comparison")
+		}
+	}
 	// the size a step is measured against is the whole source size on both ends of a resume
 	for _, nm := range []struct{ fn string }{{"trzszTransfer.sendPrefixHash"}, {"trzszTransfer.recvPrefixHash"}} {
 		g := c.fn(nm.fn)
@@ -633,5 +701,144 @@ func c20R7(c *Ctx) {
 	}
 	if n < 1 {
 		c.undecided("non-negative/sites", "no Grow / Repeat site found in the rendering functions")
+	}
+}
+
+// c20R8: rendering never fails — every access a[i] with a non-constant index into a fixed-size array in the
+// progress-line code (progress.go) is provably in range:
+//
+//	(loop counter)  i is a variable that starts at a constant in range and is only ever incremented by one on an edge
+//	                where i < K was established, with K <= len(a)-1 (so i <= K);
+//	(ring index)    i is a field; every store to that field in the package is a constant in range, or is followed on
+//	                every path to the function's return by the wrap test `field >= K` (K <= len(a)) whose taken edge
+//	                stores a constant in range;
+//	(guarded)       a dominating fact i < K with K <= len(a) (and i >= 0 by construction of the two shapes above).
+//
+// Anything else is reported: it may be fine, but then it is not of a shape this rule can vouch for.
+func c20R8(c *Ctx) {
+	arrayLen := func(v ssa.Value) (int64, bool) {
+		t := v.Type()
+		if p, ok := t.Underlying().(*types.Pointer); ok {
+			t = p.Elem()
+		}
+		if a, ok := t.Underlying().(*types.Array); ok {
+			return a.Len(), true
+		}
+		return 0, false
+	}
+	inFile := func(f *ssa.Function) bool {
+		return strings.HasSuffix(c.Fset.Position(f.Pos()).Filename, "/progress.go")
+	}
+	constLE := func(v ssa.Value, max int64) bool { k, ok := constInt(v); return ok && k <= max }
+	n := 0
+	for _, f := range c.AllFns {
+		if !inFile(f) {
+			continue
+		}
+		eachInstr(f, func(in ssa.Instruction) {
+			var base, idx ssa.Value
+			switch x := in.(type) {
+			case *ssa.IndexAddr:
+				base, idx = x.X, x.Index
+			case *ssa.Index:
+				base, idx = x.X, x.Index
+			default:
+				return
+			}
+			L, isArr := arrayLen(base)
+			if !isArr {
+				return
+			}
+			if k, isC := constInt(idx); isC {
+				_ = k // constant indexes are checked by the compiler
+				return
+			}
+			n++
+			key := "index-in-range/" + c.fnName(f) + "/" + chanName(base)
+			// (guarded)
+			if factCmp(factsAt(in.Block()), token.LSS, isValue(idx), func(v ssa.Value) bool { return constLE(v, L) }) {
+				c.ok(key, c.ipos(in), "dominated by index < bound <= length")
+				return
+			}
+			// (loop counter)
+			if p, isPhi := strip(idx).(*ssa.Phi); isPhi {
+				good, why := true, ""
+				for k, e := range p.Edges {
+					if c0, isC := constInt(e); isC {
+						if c0 < 0 || c0 >= L {
+							good, why = false, "starts out of range"
+						}
+						continue
+					}
+					b, isB := e.(*ssa.BinOp)
+					if !isB || b.Op != token.ADD || !isConstIntV(1)(b.Y) || strip(b.X) != ssa.Value(p) {
+						good, why = false, "is changed otherwise than by +1"
+						continue
+					}
+					pred := p.Block().Preds[k]
+					fs := append(append([]fact{}, factsAt(b.Block())...), edgeFactsTo(pred, p.Block())...)
+					if !factCmp(fs, token.LSS, isValue(p), func(v ssa.Value) bool { return constLE(v, L-1) }) {
+						good, why = false, fmt.Sprintf("is incremented without an established bound index < K, K <= %d", L-1)
+					}
+				}
+				c.check(good, key, c.ipos(in), "loop counter bounded below the array length", "the index into a fixed-size array "+why+": it can reach the array's length (index out of range while rendering)")
+				return
+			}
+			// (ring index): a field
+			if _, fld, isF := fieldOf(idx); isF {
+				good, why := true, ""
+				nSt := 0
+				for _, g := range c.AllFns {
+					eachInstr(g, func(x ssa.Instruction) {
+						st, ok := x.(*ssa.Store)
+						if !ok {
+							return
+						}
+						if nm, _ := fieldAddrName(st.Addr); !strings.HasSuffix(nm, "."+fld) {
+							return
+						}
+						nSt++
+						if k, isC := constInt(st.Val); isC {
+							if k < 0 || k >= L {
+								good, why = false, "is set to a constant out of range"
+							}
+							return
+						}
+						// followed by the wrap test before the function returns
+						hit, _ := reachAvoid(st, isReturn, func(y ssa.Instruction) bool {
+							i, isIf := y.(*ssa.If)
+							if !isIf {
+								return false
+							}
+							op, a, bnd, okC := cmpFact(normFact(fact{V: i.Cond, Pol: true}))
+							if !okC || op != token.GEQ || !isFieldLoad(fld)(a) || !constLE(bnd, L) {
+								return false
+							}
+							// the taken edge stores a constant in range
+							okReset := false
+							for _, z := range i.Block().Succs[0].Instrs {
+								if s2, isS := z.(*ssa.Store); isS {
+									if nm2, _ := fieldAddrName(s2.Addr); strings.HasSuffix(nm2, "."+fld) {
+										if k2, isC2 := constInt(s2.Val); isC2 && k2 >= 0 && k2 < L {
+											okReset = true
+										}
+									}
+								}
+							}
+							return okReset
+						})
+						if hit != nil {
+							good, why = false, "is advanced at "+c.ipos(st)+" without the wrap-around test following on every path"
+						}
+					})
+				}
+				c.check(good && nSt > 0, key, c.ipos(in), "ring index: every store is a constant in range or is followed by the wrap-around test", "the ring index "+fld+" "+why+": it can reach the array's length (index out of range while rendering)")
+				return
+			}
+			c.bad(key, c.ipos(in), "a variable index into a fixed-size array that is neither a bounded loop counter, nor a ring index with its wrap-around test, nor guarded by index < length")
+		})
+	}
+	if n < 2 {
+		c.undecided("index-in-range/sites", "fewer variable-index array accesses in the progress code than expected")
 	}
 }
